@@ -53,7 +53,7 @@ class Model:
     def _canon_(self, now):
         return (tuple(sorted((k, None if v is None else v - now) for k, v in self.live.items())),
                 tuple(sorted(self.last.items())), self.reject6, self.started, self.announced, self.connlost_pending,
-                tuple(sorted(self.sent_before)))
+                tuple(sorted(self.sent_before, key=repr)))
 
 
 class Sys(e1.TimedSys):
@@ -103,7 +103,7 @@ class Sys(e1.TimedSys):
         held = [h.args[0] for h in self.held]
         acts = []
         for cl, name, ev in self.menu:
-            if ev[0] == "r" and cl not in m.sent_before:
+            if (ev[0] == "r" and cl not in m.sent_before) or (ev == "M" and (cl, "mc") not in m.sent_before):
                 continue
             acts.append(("msg", cl, name, ev))
         if any(h[0] != "msg" for h in held):
@@ -132,14 +132,20 @@ class Sys(e1.TimedSys):
         if act[0] == "msg":
             _, cl, name, ev = act
             uflag = not ev.endswith("u")  # SD unicast flag clear: the entries are ignored, the sender is still tracked
-            if ev[0] == "r":
+            # 'm' / 'M': the message arrives on the multicast channel (its Subscribe entries are ignored there, C11);
+            # 'M' carries reboot evidence relative to the sender's multicast history
+            mc = ev in ("m", "M")
+            wkey = (cl, "mc") if mc else cl
+            if mc:
+                uflag = False  # nothing in it counts
+            if ev[0] == "r" or ev == "M":
                 sess = 1
                 self.step_reboot = (cl, {k[1] for k, v in m.last.items() if k[0] == cl and v == "subscribed"})
                 self._drop_all(cl)
             else:
-                sess = self.wire.get(cl, self.cfg.get("session_base", 0)) + 1
-            self.wire[cl] = sess
-            m.sent_before.add(cl)
+                sess = self.wire.get(wkey, self.cfg.get("session_base", 0)) + 1
+            self.wire[wkey] = sess
+            m.sent_before.add(wkey)
             entries = []
             for sk, ttl in MSGS[name]:
                 eg, counter, ep = SUBS[sk]
@@ -160,8 +166,8 @@ class Sys(e1.TimedSys):
                 else:
                     m.live[key] = None if ttl == INF else now + ttl
                     self.expected_acks.append((cl, sk, ttl))
-            data = refcodec.sd_message(sess, entries, reboot=True, unicast=uflag)
-            self.prot.datagram_received(data, CL[cl], False)
+            data = refcodec.sd_message(sess, entries, reboot=True, unicast=True if mc else uflag)
+            self.prot.datagram_received(data, CL[cl], mc)
         elif act[0] == "reject6":
             m.reject6 = act[1]
             if act[1]:
@@ -316,6 +322,8 @@ def configs(ctx):
                                   deviations=0, fine=1), ctx.pick(3, 5)))
     ident = [("C1", n, "n") for n in ("sub-a2", "stop-a", "sub-d2", "stop-d", "sub-b2")]
     out.append(("identity", dict(sid=sid, advs=(None, "next"), menu=ident, controls=(), deviations=0, fine=0), CLOSURE))
+    both = [("C1", n, e) for n in ("sub-a2", "stop-a") for e in ("n", "r", "m", "M")]
+    out.append(("C1-both-channels", dict(sid=sid, advs=(None, "next"), menu=both, controls=(), deviations=0, fine=0), CLOSURE))
     uf = [("C1", n, e) for n in ("sub-a2", "stop-a", "sub-c2") for e in ("n", "r", "nu", "ru")]
     out.append(("C1-unicast-flag-clear", dict(sid=sid, advs=(None, "next"), menu=uf, controls=(), deviations=0, fine=0), CLOSURE))
     alias = [(c, n, "n") for c in ("C1", "C5", "C3", "C4") for n in ("sub-a2", "stop-a")] + [("C3", "sub-a2", "r"), ("C5", "stop-a", "r")]
